@@ -222,6 +222,7 @@ func c05Run(c *Ctx) {
 			}
 		}
 	}
+	c05LongRun(c) // long lists, direct predicates only (c05_long.go)
 }
 
 // enumNodes enumerates all nodes with at most n nodes over keys {a,b}, scalars {1,2,null}.
@@ -476,6 +477,8 @@ func c05Eval(c *Ctx, kind string, raw []byte) {
 		}
 	case "hist":
 		c05EvalHist(c, raw)
+	case "long":
+		c05LongEval(c, raw) // c05_long.go
 	case "triple":
 		var p c05Triple
 		if err := json.Unmarshal(raw, &p); err != nil {
